@@ -729,6 +729,28 @@ func callPack(sp *spec, p content.Pusher) (ocispec.Descriptor, error) {
 
 // descOf512 describes data by its SHA-512 digest (registered algorithm, other blob directory /
 // key space in every target).
+const callTimeout = 20 * time.Second
+
+// callPackWatched runs the call under a watchdog (the targets are in-process; nothing in Pack waits
+// on anything, so a wedge can only come from a changed code path).
+func callPackWatched(sp *spec, p content.Pusher) (ocispec.Descriptor, error, bool) {
+	type res struct {
+		d   ocispec.Descriptor
+		err error
+	}
+	ch := make(chan res, 1)
+	go func() {
+		d, err := callPack(sp, p)
+		ch <- res{d, err}
+	}()
+	select {
+	case r := <-ch:
+		return r.d, r.err, false
+	case <-time.After(callTimeout):
+		return ocispec.Descriptor{}, nil, true
+	}
+}
+
 func descOf512(mt string, data []byte) ocispec.Descriptor {
 	h := sha512.Sum512(data)
 	return ocispec.Descriptor{MediaType: mt, Digest: digest.Digest("sha512:" + hex.EncodeToString(h[:])), Size: int64(len(data))}
@@ -920,8 +942,15 @@ func packCase(sp *spec) {
 		p = fullStorage{rec}
 	}
 	t0 := time.Now()
-	desc, err := callPack(sp, p)
+	desc, err, wedged := callPackWatched(sp, p)
 	t1 := time.Now()
+	if wedged {
+		// no call may block: a wedge is a finding with a replay, not a hung check
+		fail("hang", "%s on %s did not return within %v", sp.Fn, sp.Target, callTimeout)
+		run.Finish()
+		fmt.Println("a Pack call hung; see oracle.txt")
+		os.Exit(4)
+	}
 	kind := errKind(err)
 	key := createdKey(sp.Fn)
 	_, hadCreated := sp.Ann[key]
